@@ -233,7 +233,7 @@ impl Property for C20 {
         "the plain address and its IPv4-mapped form are treated as different clients by the limiter (not part of the statement; never used together in part (i))",
     ];
     const QUICK_CASES: u32 = 2_000_000;
-    const THOROUGH_CASES: u32 = 30_000_000;
+    const THOROUGH_CASES: u32 = 80_000_000;
 
     fn strategy(_tier: Tier) -> BoxedStrategy<Case> {
         prop_oneof![
